@@ -23,7 +23,13 @@ fn has_nan(d: Dd) -> bool {
 // ------------------------------------------------------------------ C06
 
 fn pair_c06(ctx: &mut Ctx) -> (Dd, Dd) {
-    let a = dd_exp(ctx, -1022, 1023, true);
+    let a = match (ctx.chance(1, 12), derived_operand(ctx, -1000, 1000)) {
+        (true, Some(d)) => d,
+        _ => match maybe_constant(ctx, 30, true) {
+            Some(c) => c,
+            None => dd_exp(ctx, -1022, 1023, true),
+        },
+    };
     let c = ctx.weighted(&[4, 2, 4, 2, 3, 2]);
     let b = match c {
         0 => dd_exp(ctx, -1022, 1023, true),
